@@ -18,3 +18,9 @@ print('STATUS', r.status, 'paths', len(r.paths))
 for p in r.paths[:int(os.environ.get('NP', '6'))]:
     print(' conds', [str(c) for c in p.conds]); print('  out', p.out, p.panic if p.out != 'ret' else str(p.ret)[:1500]); print('  events', p.events[:20])
     if 'muts' in p.d and p.d['muts']: print('  muts', {k: str(p.mut(k))[:800] for k in p.d['muts']})
+if os.environ.get('VEKSCAN_MIRDUMP'):
+    on = False
+    for l in sc.log.splitlines():
+        if l.startswith('MIRDUMP'): on = True
+        elif on and not l.startswith('  '): on = False
+        if on: print(l[:300])
